@@ -106,15 +106,18 @@ _ANC_CACHE: dict[tuple[int, str], set[str]] = {}
 
 def class_ancestors(repo: Repo, clsname: str) -> set[str]:
     """Names of all repository ancestors of the (uniquely named) class `clsname`."""
-    key = (id(repo), clsname)
-    if key in _ANC_CACHE:
-        return _ANC_CACHE[key]
+    cache = getattr(repo, '_anc_cache', None)
+    if cache is None:
+        cache = {}
+        repo._anc_cache = cache  # type: ignore
+    if clsname in cache:
+        return cache[clsname]
     out: set[str] = set()
     for rel, q, c in repo.all_classes():
         if q == clsname:
             for _, k in repo.mro(rel, q):
                 out.add(k.name)
-    _ANC_CACHE[key] = out
+    cache[clsname] = out
     return out
 
 
